@@ -3,318 +3,33 @@ from __future__ import annotations
 
 import ast
 
-from sa.astx import NotConst, call_attr, call_name, const_eval, names_read, src, walk_local
+from sa.astx import call_name, src, walk_local
 from sa.selftest import Mutant, Silent
 from sa.source import AnalysisError
-from sa.props._lib_k import contains_node, eval_to
 
 PROPERTY = "C56"
 FLAT = "logger/_flatten.py"
 JSON = "logger/_json.py"
 FMT = "logger/_format.py"
-TECHNIQUE = "finite evaluation of key normalisers, CFG ordering, concrete interpretation over event family"
+TECHNIQUE = "concrete interpretation of formatter, flattener, JSON codec over event family; escape analysis"
 EXPLANATION = (
-    "Writer/reader agreement for flattened events, decided on the AST/CFG of flattenEvent, flatFormat, KeyFlattener.flatKey, "
-    "eventAsJSON/eventFromJSON and _formatEvent: (a) the conversion code each side hands to flatKey (after flatKey's own "
-    "normalisation) and the conversion function the writer applies are evaluated over the whole domain {None, s, r, a} and "
-    "must coincide with each other and with str.format's semantics; (b) the format spec must be applied by one of the two sides; "
-    "(c) both sides iterate aFormatter.parse(event['log_format']) with the same tuple layout, call flatKey exactly once per "
-    "field in order with a fresh KeyFlattener created outside the loop, the key depends on all three components and is "
-    "computed from the unstripped field name; (d) the writer calls `()` fields before converting and stores the converted "
-    "text under the flattened key; (e) the reader emits literal-then-field joined by ''; (f) eventAsJSON flattens before "
-    "dumps, the 'log_flattened' / '__class_uuid__' constants agree between writers, readers and the _formatEvent dispatch, dumps / loads "
-    "receive only keyword arguments that make them more total (no allow_nan=False, parse_* hooks, dropped skipkeys); (g) flattenEvent, "
-    "flatFormat, eventAsJSON and eventFromJSON are interpreted concretely over a family of 25 format strings (plain / !s / !r, repeated, "
-    "called and uncalled references to the same name, attribute and index lookups, inf) and the text after flattening, flattening "
-    "twice and the JSON round trip must equal the str.format-with-call text of the original event. "
-    "Not decided: text equality for arbitrary values, fidelity of non-string values through JSON."
+    "flattenEvent, flatFormat, KeyFlattener, eventAsJSON / eventFromJSON with their hooks and tables, and the live formatter "
+    "(_formatEvent, formatWithCall, keycall, CallMapping, PotentialCallWrapper) are interpreted from their AST (helpers, generators "
+    "and closures followed; stdlib string.Formatter / json drive the interpreted objects) over a family of 39 format strings covering "
+    "every conversion {none, s, r, a}, format specs, repeated fields, called and uncalled references to one name in both orders, "
+    "attribute / index lookups followed by calls, NamedConstant / LogLevel / bytes / inf values: the text of the original event, "
+    "after flattenEvent, after flattening twice and after the JSON round trip must all equal str.format-with-call-syntax. "
+    "Statically: eventAsJSON flattens the event it serialises before dumps; dumps / loads receive only keyword arguments that make "
+    "them more total; the '__class_uuid__' marker and classInfo rows agree between saver and loader; the JSON fallback encoder "
+    "(default hook, objectSaveHook, every classInfo predicate and saver) performs no may-raise operation on an arbitrary object "
+    "(exception-escape analysis with isinstance narrowing). Not decided: text equality for values outside the family, fidelity of "
+    "non-string values through JSON, objects whose __format__('') differs from str()."
 )
 ASSUMPTIONS = [
     "string.Formatter.parse yields (literal_text, field_name, format_spec, conversion)",
     "format(value, '') == str(value) for the values in scope (default __format__)",
 ]
-DOMAIN = [None, "s", "r", "a"]
-EXPECT_FUNC = {None: "<str>", "s": "<str>", "r": "<repr>", "a": "<ascii>"}
-FUNC_ENV = {"str": "<str>", "repr": "<repr>", "ascii": "<ascii>"}
 QF = "twisted.logger._flatten."
-
-
-def _parse_loop(ctx, func, qual):
-    """The `for a, b, c, d in aFormatter.parse(event['log_format'])` loop of a function."""
-    loops = [n for n in ast.walk(func) if isinstance(n, ast.For) and isinstance(n.iter, ast.Call) and call_attr(n.iter) == "parse"]
-    ctx.need(len(loops) == 1, f"the single Formatter.parse loop of {qual}")
-    lp = loops[0]
-    ctx.need(isinstance(lp.target, (ast.Tuple, ast.List)) and len(lp.target.elts) == 4 and all(isinstance(e, ast.Name) for e in lp.target.elts),
-             f"4-name unpacking of the parse tuple in {qual}")
-    return lp, [e.id for e in lp.target.elts]
-
-
-def _flatkey_calls(node):
-    return [c for c in ast.walk(node) if isinstance(c, ast.Call) and call_attr(c) == "flatKey"]
-
-
-def _norm_by_flatkey(ctx, flatkey, value):
-    """flatKey's own normalisation of its conversion parameter, at the point where the key text is built."""
-    conv = flatkey.args.args[3].arg
-    fmt_calls = [c for c in ast.walk(flatkey) if isinstance(c, ast.Call) and call_attr(c) == "format"]
-    ctx.need(fmt_calls, "the key template .format(...) call of flatKey")
-    env = eval_to(flatkey.body, fmt_calls[0], {conv: value}, {conv}, "flatKey")
-    if env is None:
-        raise AnalysisError("flatKey: key construction not reached")
-    kw = {k.arg: k.value for k in fmt_calls[0].keywords}
-    expr = kw.get("conversion")
-    if expr is None:
-        return env[conv]
-    try:
-        return const_eval(expr, env)
-    except NotConst as e:
-        raise AnalysisError(f"flatKey: conversion component not evaluable: {e}")
-
-
-def _structural(ctx):
-    writer = ctx.func(FLAT, "flattenEvent")
-    reader = ctx.func(FLAT, "flatFormat")
-    flatkey = ctx.func(FLAT, "KeyFlattener.flatKey")
-    ctx.need(len(flatkey.args.args) == 4, "flatKey(self, fieldName, formatSpec, conversion)")
-    wl, wnames = _parse_loop(ctx, writer, "flattenEvent")
-    rl, rnames = _parse_loop(ctx, reader, "flatFormat")
-
-    # ---- (c) same iteration source, same tuple layout -------------------------------------------------------
-    for q, lp in (("flattenEvent", wl), ("flatFormat", rl)):
-        it = lp.iter
-        ok = src(it.func.value) == "aFormatter" and len(it.args) == 1 and isinstance(it.args[0], ast.Subscript) \
-            and isinstance(it.args[0].slice, ast.Constant) and it.args[0].slice.value == "log_format"
-        ctx.check(ok, "parse/same-source", ctx.construct(QF + q, it),
-                  "the field list is not obtained from aFormatter.parse(event['log_format']) (the two sides would walk different field sequences)")
-    ctx.check(src(wl.iter) == src(rl.iter), "parse/same-source", QF + "flattenEvent|flatFormat",
-              "writer and reader parse different expressions")
-
-    # which flatKey call carries the conversion on each side
-    def conv_calls(lp, names):
-        out = []
-        for c in _flatkey_calls(lp):
-            if len(c.args) == 3 and not (isinstance(c.args[2], ast.Constant)):
-                out.append(c)
-        return out
-    wcalls = conv_calls(wl, wnames)
-    rcalls = conv_calls(rl, rnames)
-    ctx.check(len(wcalls) == 1, "key/one-call-per-field", QF + "flattenEvent", f"{len(wcalls)} conversion-carrying flatKey calls per field in the writer (must be 1)")
-    ctx.check(len(rcalls) == 1, "key/one-call-per-field", QF + "flatFormat", f"{len(rcalls)} conversion-carrying flatKey calls per field in the reader (must be 1)")
-    if len(wcalls) != 1 or len(rcalls) != 1:
-        return
-    wc, rc = wcalls[0], rcalls[0]
-    layout_ok = True
-    for q, c, names, lp in (("flattenEvent", wc, wnames, wl), ("flatFormat", rc, rnames, rl)):
-        ok = src(c.args[0]) == names[1] and src(c.args[1]) == names[2] and names_read(c.args[2]) <= {names[3]} and names[3] in names_read(c.args[2])
-        if not ctx.check(ok, "key/tuple-layout", ctx.construct(QF + q, c),
-                         "flatKey is not called with (field_name, format_spec, f(conversion)) taken from positions 1, 2, 3 of the parse tuple"):
-            layout_ok = False
-        # fresh flattener, created outside the loop
-        recv = c.func.value
-        ctx.need(isinstance(recv, ast.Name), f"flatKey receiver is a local name in {q}")
-        f = writer if q == "flattenEvent" else reader
-        creates = [st for st in ast.walk(f) if isinstance(st, ast.Assign) and any(isinstance(t, ast.Name) and t.id == recv.id for t in st.targets)]
-        fresh = len(creates) == 1 and isinstance(creates[0].value, ast.Call) and call_name(creates[0].value) == "KeyFlattener" \
-            and not contains_node(lp, creates[0])
-        ctx.check(fresh, "key/fresh-flattener", QF + q + " | " + recv.id,
-                  "the occurrence counters are not those of one fresh KeyFlattener per pass (created once, outside the field loop): "
-                  "repeated fields get different /n suffixes on the two sides")
-        # the key is computed from the unstripped field name: no assignment to the field-name variable may precede the call
-        g = ctx.cfg(f)
-        cids = g.ids_of(c)
-        reassign = g.ids(lambda n: n.kind == "stmt" and isinstance(n.ast, (ast.Assign, ast.AugAssign)) and
-                         any(isinstance(t, ast.Name) and t.id == names[1] for t in (n.ast.targets if isinstance(n.ast, ast.Assign) else [n.ast.target])))
-        heads = g.ids_of(lp)
-        bad = None
-        for r in reassign:
-            p = g.path([r], cids, avoid=heads, strict=True)
-            if p:
-                bad = p
-        ctx.check(bad is None, "key/uses-unstripped-field-name", ctx.construct(QF + q, c),
-                  "the field name is rewritten (e.g. '()' stripped) before the key is computed: '{x()}' gets different keys on the two sides",
-                  witness=g.describe(bad))
-        # exactly once per non-None field: a path around the loop that avoids the call must take the `field is None` exit
-        head = heads[0] if heads else None
-        ctx.need(head is not None, f"loop head of {q}")
-
-        def is_none_edge(a, b, l, g=g, nm=names[1]):
-            n = g.node(a)
-            if n.kind != "test" or not isinstance(n.ast, ast.Compare) or len(n.ast.ops) != 1 or src(n.ast.left) != nm:
-                return False
-            if not (isinstance(n.ast.comparators[0], ast.Constant) and n.ast.comparators[0].value is None):
-                return False
-            return (isinstance(n.ast.ops[0], ast.Is) and l == "T") or (isinstance(n.ast.ops[0], ast.IsNot) and l == "F")
-        first = [d for d, l in g.succ[head] if l == "iter"]
-        p = g.path(first, [head], avoid=cids, edge_ok=lambda a, b, l: l != "exc" and not is_none_edge(a, b, l)) if first else None
-        ctx.check(p is None, "key/one-call-per-field", ctx.construct(QF + q, c),
-                  "a field with a name can be skipped without its flatKey call (occurrence counters of the two sides diverge)",
-                  witness=g.describe(p))
-        for cid in cids:
-            ctx.check(not g.path([cid], cids, avoid=heads, strict=True), "key/one-call-per-field", ctx.construct(QF + q, c) + " | not repeated",
-                      "flatKey can run twice for one field")
-
-    if not layout_ok:
-        return
-    # ---- flatKey: key depends on all three components ----------------------------------------------------------
-    fk_fmt = [c for c in ast.walk(flatkey) if isinstance(c, ast.Call) and call_attr(c) == "format" and isinstance(c.func.value, ast.Constant)]
-    ctx.need(fk_fmt, "flatKey key template")
-    tmpl = fk_fmt[0].func.value.value
-    import string
-    used = {f for _, f, _, _ in string.Formatter().parse(tmpl) if f}
-    kw = {k.arg: k.value for k in fk_fmt[0].keywords}
-    params = [a.arg for a in flatkey.args.args[1:]]
-    for p_ in params:
-        dep = any(p_ in names_read(v) for k, v in kw.items() if k in used)
-        ctx.check(dep, "key/depends-on-component", f"{QF}KeyFlattener.flatKey | {p_}",
-                  f"the flattened key does not depend on {p_}: two fields differing only in it share one stored value")
-
-    # ---- (a) conversion agreement over the finite domain --------------------------------------------------------
-    conv_w, conv_r = wnames[3], rnames[3]
-    wstore = None
-    # the writer's stored value: fields[<flattenedKey>] = <value>
-    key_targets = [st for st in ast.walk(wl) if isinstance(st, ast.Assign) and len(st.targets) == 1 and isinstance(st.targets[0], ast.Name) and st.value is wc]
-    ctx.need(key_targets, "assignment of the flattened key in flattenEvent")
-    keyvar = key_targets[0].targets[0].id
-    stores = [st for st in ast.walk(wl) if isinstance(st, ast.Assign) and len(st.targets) == 1 and isinstance(st.targets[0], ast.Subscript)
-              and src(st.targets[0].slice) == keyvar]
-    ctx.check(len(stores) == 1, "writer/stores-converted-text", QF + "flattenEvent | fields[flattenedKey]",
-              f"{len(stores)} stores under the flattened key (must be exactly one)")
-    if len(stores) != 1:
-        return
-    wstore = stores[0]
-    # the converted value: either a call directly or a local assigned from a call
-    conv_call = wstore.value
-    if isinstance(conv_call, ast.Name):
-        defs = [st for st in ast.walk(wl) if isinstance(st, ast.Assign) and any(isinstance(t, ast.Name) and t.id == conv_call.id for t in st.targets)]
-        conv_call = defs[-1].value if defs else None
-    is_call = isinstance(conv_call, ast.Call) and isinstance(conv_call.func, ast.Name) and len(conv_call.args) >= 1
-    ctx.check(is_call, "writer/stores-converted-text", ctx.construct(QF + "flattenEvent", wstore),
-              "the value stored under the flattened key is not the str/repr conversion of the field (raw objects do not survive JSON and "
-              "format differently)")
-    for v in DOMAIN:
-        label = f"conversion={v!r}"
-        env_w = eval_to(wl.body, wc, dict(FUNC_ENV, **{conv_w: v}), {conv_w}, "flattenEvent")
-        env_r = eval_to(rl.body, rc, {conv_r: v}, {conv_r}, "flatFormat")
-        if env_w is None or env_r is None:
-            raise AnalysisError(f"C56: flatKey call not reached for {label}")
-        try:
-            kw_ = _norm_by_flatkey(ctx, flatkey, const_eval(wc.args[2], env_w))
-            kr_ = _norm_by_flatkey(ctx, flatkey, const_eval(rc.args[2], env_r))
-        except NotConst as e:
-            raise AnalysisError(f"C56: conversion argument not evaluable: {e}")
-        ctx.check(kw_ == kr_, "conversion/key-agreement", f"{QF}flattenEvent|flatFormat | {label}",
-                  f"for a field written {{x{'!' + v if v else ''}}} the writer stores under conversion code {kw_!r} but the reader looks up {kr_!r}: KeyError, "
-                  "the flattened event formats as 'Unable to format event ...'", detail=f"both sides use {kw_!r}")
-        if is_call:
-            tracked = {conv_w, conv_call.func.id}
-            env_f = eval_to(wl.body, conv_call, dict(FUNC_ENV, **{conv_w: v}), tracked, "flattenEvent")
-            if env_f is None:
-                raise AnalysisError(f"C56: conversion call not reached for {label}")
-            fn = env_f.get(conv_call.func.id)
-            ctx.check(fn == EXPECT_FUNC[v], "conversion/function-agreement", f"{QF}flattenEvent | {label}",
-                      f"str.format applies {EXPECT_FUNC[v]} for this conversion, the writer flattens with {fn}: the flattened text differs",
-                      detail=f"{fn}")
-
-    # ---- (b) the format spec is applied by one side ---------------------------------------------------------------
-    g = ctx.cfg(reader)
-    appends = [c for c in ast.walk(rl) if isinstance(c, ast.Call) and call_attr(c) == "append" and len(c.args) == 1]
-    field_app = [c for c in appends if any(x is rc or (isinstance(x, ast.Name) and x.id in _assigned_from(rl, rc)) for x in ast.walk(c.args[0]))]
-    lit_app = [c for c in appends if src(c.args[0]) == rnames[0]]
-    ctx.check(len(field_app) == 1 and len(lit_app) == 1, "reader/emits-literal-then-field", QF + "flatFormat",
-              "the reader does not append exactly one literal and one field value per parsed item")
-    spec_r, spec_w = rnames[2], wnames[2]
-
-    def applies_spec(expr, spec):
-        return any(isinstance(x, ast.Call) and (call_attr(x) in ("format", "format_field", "__format__")) and
-                   any(spec in names_read(a) for a in list(x.args) + [k.value for k in x.keywords]) for x in ast.walk(expr))
-    applied = any(applies_spec(c.args[0], spec_r) for c in field_app) or (is_call and applies_spec(conv_call, spec_w))
-    ctx.check(applied, "format-spec/applied", QF + "flattenEvent|flatFormat | <format spec of a field>",
-              "neither the writer nor the reader applies the field's format spec (it only becomes part of the key): '{x:05d}' gives '00003' "
-              "for the original event and '3' for the flattened one")
-
-    # ---- (e) reader order and join ----------------------------------------------------------------------------------
-    if len(field_app) == 1 and len(lit_app) == 1:
-        fa, la = g.ids_of(field_app[0]), g.ids_of(lit_app[0])
-        heads = g.ids_of(rl)
-        starts = [h2 for h in heads for h2, l in g.succ[h] if l == "iter"]
-        p = g.path([x for x in starts if x not in la], fa, avoid=set(la) | set(heads))
-        ctx.check(p is None, "reader/emits-literal-then-field", ctx.construct(QF + "flatFormat", field_app[0]),
-                  "a field value can be emitted before the literal text that precedes it", witness=g.describe(p))
-        ctx.check(src(field_app[0].func.value) == src(lit_app[0].func.value), "reader/emits-literal-then-field",
-                  QF + "flatFormat | same buffer", "literal text and field values go to different buffers")
-        buf = src(field_app[0].func.value)
-        rets = [n for n in ast.walk(reader) if isinstance(n, ast.Return) and n.value is not None]
-        ok = any(isinstance(r.value, ast.Call) and call_attr(r.value) == "join" and isinstance(r.value.func.value, ast.Constant)
-                 and r.value.func.value.value == "" and len(r.value.args) == 1 and src(r.value.args[0]) == buf for r in rets) and len(rets) == 1
-        ctx.check(ok, "reader/joins-with-empty-separator", QF + "flatFormat | return",
-                  "the pieces are not concatenated with the empty separator in order")
-        # literal appended unconditionally in each iteration
-        p = g.path([x for x in starts if x not in la], heads, avoid=la, edge_ok=lambda a, b, l: l != "exc")
-        ctx.check(p is None, "reader/emits-literal-then-field", ctx.construct(QF + "flatFormat", lit_app[0]),
-                  "an iteration can skip the literal text", witness=g.describe(p))
-        # the looked-up mapping is event['log_flattened']
-        look = [x for x in ast.walk(field_app[0].args[0]) if isinstance(x, ast.Subscript)]
-        ctx.check(bool(look), "reader/reads-flattened-value", ctx.construct(QF + "flatFormat", field_app[0]),
-                  "the emitted field is not looked up by its flattened key")
-
-    # ---- (d) writer: call before convert --------------------------------------------------------------------------------
-    gw = ctx.cfg(writer)
-    if is_call:
-        argname = src(conv_call.args[0])
-        callsites = gw.ids(lambda n: n.kind == "stmt" and isinstance(n.ast, ast.Assign) and isinstance(n.ast.value, ast.Call)
-                           and isinstance(n.ast.value.func, ast.Name) and n.ast.value.func.id == argname and not n.ast.value.args
-                           and any(isinstance(t, ast.Name) and t.id == argname for t in n.ast.targets))
-        ctx.check(bool(callsites), "writer/call-before-convert", QF + "flattenEvent | <call of '()' fields>",
-                  "fields written '{x()}' are no longer called by the writer before being converted")
-        cc = gw.ids_of(conv_call)
-        heads = gw.ids_of(wl)
-        for cs in callsites:
-            p = gw.path(cc, [cs], avoid=heads, strict=True)
-            ctx.check(p is None, "writer/call-before-convert", ctx.construct(QF + "flattenEvent", gw.node(cs).ast),
-                      "the '()' call happens after the value was converted: the text of the callable itself is stored", witness=gw.describe(p))
-            # the call is conditional on the '()' suffix test
-            flags = {t.id for st in ast.walk(wl) if isinstance(st, ast.Assign) and isinstance(st.value, ast.Constant) and st.value.value is True
-                     for t in st.targets if isinstance(t, ast.Name)}
-            ctx.check(gw.guarded(cs, lambda e: src(e) in flags or "endswith('()')" in src(e), True), "writer/call-before-convert",
-                      ctx.construct(QF + "flattenEvent", gw.node(cs).ast) + " | only for '()' fields", "the field is called although it was not written with '()'")
-        # the converted value derives from get_field on the event
-        gf = [c for c in ast.walk(wl) if isinstance(c, ast.Call) and call_attr(c) == "get_field"]
-        ctx.check(len(gf) == 1 and len(gf[0].args) == 3 and src(gf[0].args[2]) == writer.args.args[0].arg, "writer/resolves-like-format",
-                  QF + "flattenEvent | get_field", "the field is not resolved with Formatter.get_field against the event itself")
-    # writer publishes the mapping under 'log_flattened'; reader and dispatcher read the same key
-    pub = [st for st in ast.walk(writer) if isinstance(st, ast.Assign) and isinstance(st.targets[0], ast.Subscript)
-           and isinstance(st.targets[0].slice, ast.Constant) and src(st.targets[0].value) == writer.args.args[0].arg]
-    wkey = {st.targets[0].slice.value for st in pub}
-    rkey = {x.slice.value for x in ast.walk(reader) if isinstance(x, ast.Subscript) and isinstance(x.slice, ast.Constant)
-            and src(x.value) == reader.args.args[0].arg and x.slice.value != "log_format"}
-    ctx.check(wkey == {"log_flattened"} and rkey == wkey, "flattened-key-constant", QF + "flattenEvent|flatFormat | 'log_flattened'",
-              f"writer publishes under {sorted(wkey)} but the reader reads {sorted(rkey)}")
-    if pub and wstore is not None:
-        mapping = src(wstore.targets[0].value)
-        pre = {tl for h in gw.ids_of(wl) for tl in gw.edge_guards(h)}
-        ok = src(pub[0].value) == mapping and all(src(gw.node(t).ast) == mapping and lab == "T"
-                                                  for n in gw.ids_of(pub[0]) for t, lab in gw.edge_guards(n) if (t, lab) not in pre)
-        ctx.check(ok, "writer/publishes-fields", ctx.construct(QF + "flattenEvent", pub[0]),
-                  "the mapping that received the flattened values is not the one attached to the event (or only under an unrelated condition)")
-
-
-
-def _dispatch(ctx):
-    fe = ctx.func(FMT, "_formatEvent")
-    gf_ = ctx.cfg(fe)
-    disp = gf_.find(lambda x: isinstance(x, ast.Call) and call_name(x) == "flatFormat")
-    ctx.check(bool(disp), "dispatch/flattened-uses-flatFormat", "twisted.logger._format._formatEvent",
-              "events carrying 'log_flattened' are no longer formatted from their flattened values (objects lost by JSON would be re-formatted)")
-    for d in disp:
-        ok = gf_.guarded(d, lambda e: src(e) == f"'log_flattened' in {fe.args.args[0].arg}", True)
-        ctx.check(ok, "dispatch/flattened-uses-flatFormat", ctx.construct("twisted.logger._format._formatEvent", gf_.node(d).ast),
-                  "flatFormat is not selected exactly by the presence of 'log_flattened'")
-    others = gf_.find(lambda x: isinstance(x, ast.Call) and call_name(x) == "formatWithCall")
-    for o in others:
-        ok = gf_.guarded(o, lambda e: src(e) == f"'log_flattened' in {fe.args.args[0].arg}", False)
-        ctx.check(ok, "dispatch/flattened-uses-flatFormat", ctx.construct("twisted.logger._format._formatEvent", gf_.node(o).ast),
-                  "the live-object formatter can run for an event that carries flattened values")
-
 
 
 def _json(ctx):
@@ -423,7 +138,8 @@ class _H(_V):
 FAMILY = ["plain text", "", "{x}", "{x!s}", "{x!r}", "{x} and {x}", "{x!r} {x!s} {x}", "{x}{y}", "{{braces}} {x}", "{n} items", "{s!r}",
           "ratio={ratio}", "{u}", "{f()}", "{f}", "{f} -> {f()}", "{f()} -> {f}", "{f()!r} {f()}", "{f!r} {f()!r}", "{h.inner}", "{h.inner!r} {h.inner}",
           "{h.table[k]}", "{h.fn()}", "{h.fn} {h.fn()}", "tail {y} end", "{routes[1].fn()}", "{routes[0].inner} {routes[1].table[k]!r}",
-          "{h.table[k].fn()}", "{routes[0].fn().tag}", "state={state}", "{state!r} at {level}", "{seq}"]
+          "{h.table[k].fn()}", "{routes[0].fn().tag}", "state={state}", "{state!r} at {level}", "{seq}",
+          "{u!a}", "{n:05d}", "{s:>6}", "{s!r:>8}", "{x!r} {x} {x!r}", "{f()} {f()}", "{b}"]
 
 
 class _NamedConstant:
@@ -471,7 +187,7 @@ def _values():
     h.table["k"] = _H("h.table[k]")
     return {"x": _V("x"), "y": _V("y"), "n": 3, "s": "text", "ratio": float("inf"), "u": "\xe9", "f": _F("f"), "h": h,
             "routes": [_H("r0"), _H("r1")], "state": _NamedConstant("ConnState", "established"), "level": _LEVELS.info,
-            "seq": [1, _NamedConstant("ConnState", "closing"), "z"]}
+            "seq": [1, _NamedConstant("ConnState", "closing"), "z"], "b": b"by\xfftes"}
 
 
 def _resolve(field, values):
@@ -520,14 +236,15 @@ def _concrete(ctx):
             return repr(o)
         except BaseException:
             return "<unrepresentable>"
-    it = Interp({"aFormatter": string.Formatter(), "Formatter": string.Formatter, "defaultdict": collections.defaultdict, "dumps": json.dumps,
-                 "loads": json.loads, "UUID": uuid.UUID, "NamedConstant": _NamedConstant, "Failure": fa, "LogLevel": _LEVELS,
-                 "InvalidLogLevelError": _InvalidLogLevelError, "safe_repr": safe_repr,
-                 "JSONDict": dict, "LogEvent": dict, "Dict": typing.Dict, "Any": typing.Any, "Optional": typing.Optional, "Union": typing.Union,
-                 "Mapping": typing.Mapping}, budget=4000000)
+    it = Interp({}, budget=6000000)
     it.load(fl)
-    it.load(js, only={"eventAsJSON", "eventFromJSON", "objectSaveHook", "objectLoadHook", "failureAsJSON", "failureFromJSON"})
-    it.load(fm, only={"_formatEvent", "formatWithCall", "formatUnformattableEvent", "keycall", "PotentialCallWrapper", "CallMapping"})
+    it.load(js)
+    it.load(fm)
+    it.globals.update({"aFormatter": string.Formatter(), "Formatter": string.Formatter, "defaultdict": collections.defaultdict, "dumps": json.dumps,
+                       "loads": json.loads, "UUID": uuid.UUID, "NamedConstant": _NamedConstant, "Failure": fa, "LogLevel": _LEVELS,
+                       "InvalidLogLevelError": _InvalidLogLevelError, "safe_repr": safe_repr,
+                       "JSONDict": dict, "LogEvent": dict, "Dict": typing.Dict, "Any": typing.Any, "Optional": typing.Optional, "Union": typing.Union,
+                       "Mapping": typing.Mapping, "Iterator": typing.Iterator, "Tuple": typing.Tuple})
     for name in ("flattenEvent", "flatFormat", "eventAsJSON", "eventFromJSON", "_formatEvent", "formatWithCall"):
         ctx.need(name in it.globals, f"function {name}")
     for name in ("classInfo", "uuidToLoader"):
@@ -616,7 +333,13 @@ def _encoder_total(ctx):
         an.table_funcs[t.id] = [(fn, HOSTILE if t.id in tests else TYPED) for fn in fns]
         analysed += [fn.name for fn in fns]
     an.run(JSON, "objectSaveHook", {param: HOSTILE})
-    dflt = ctx.func(JSON, "eventAsJSON.default")
+    ej = ctx.func(JSON, "eventAsJSON")
+    dcalls = [c for c in ast.walk(ej) if isinstance(c, ast.Call) and call_name(c) in ("dumps", "json.dumps")]
+    ctx.need(len(dcalls) == 1, "the dumps(...) call of eventAsJSON")
+    dk = {k.arg: k.value for k in dcalls[0].keywords}.get("default")
+    ctx.need(isinstance(dk, ast.Name), "default=<function> argument of dumps")
+    dflt = next((n for n in ast.walk(ej) if isinstance(n, ast.FunctionDef) and n.name == dk.id), None) or js.find(dk.id)
+    ctx.need(isinstance(dflt, ast.FunctionDef), f"definition of the fallback encoder {dk.id}")
     an.analyse(JSON, dflt, {dflt.args.args[0].arg: HOSTILE}, "none")
     flagged = set()
     for st in sorted(an.sites.values(), key=lambda x: (x.node.lineno, x.op)):
@@ -626,27 +349,19 @@ def _encoder_total(ctx):
         ctx.violation("json/encoder-total", ctx.construct(f"twisted.logger._json.{st.qual}", st.node),
                       f"{st.why}: the JSON fallback encoder is applied to every object json cannot encode, so eventAsJSON raises for such an event "
                       "instead of producing text that formats like the original")
-    for q in ["objectSaveHook", "eventAsJSON.default"] + analysed:
+    for q, label in [("objectSaveHook", "objectSaveHook"), (js.qualname(dflt), "<fallback encoder passed to dumps>")] + [(a, a) for a in analysed]:
         if q not in flagged:
-            ctx.ok("json/encoder-total", f"twisted.logger._json.{q}", "no may-raise operation on an arbitrary object")
+            ctx.ok("json/encoder-total", f"twisted.logger._json.{label}", "no may-raise operation on an arbitrary object")
     ctx.floor("json/encoder-total", len(analysed), 3, "table callables")
 
 
 def check(ctx):
-    with ctx.section("flatten/format structure"):
-        _structural(ctx)
-    with ctx.section("_formatEvent dispatch"):
-        _dispatch(ctx)
     with ctx.section("JSON"):
         _json(ctx)
     with ctx.section("JSON fallback encoder"):
         _encoder_total(ctx)
     with ctx.section("concrete family"):
         _concrete(ctx)
-
-
-def _assigned_from(loop, call):
-    return {t.id for st in ast.walk(loop) if isinstance(st, ast.Assign) and st.value is call for t in st.targets if isinstance(t, ast.Name)}
 
 
 # a per-call memo of resolved fields in flattenEvent (one keyed wrongly = mutant, one keyed properly = silent variant)
@@ -663,18 +378,18 @@ def _memo(keyexpr):
 
 
 MUTANTS = [
-    Mutant("reader-default-conversion-empty", FLAT, "conversion or \"s\")", "conversion or \"\")", expect_rule="conversion/key-agreement"),
+    Mutant("reader-default-conversion-empty", FLAT, "conversion or \"s\")", "conversion or \"\")", expect_rule="roundtrip/concrete-family"),
     Mutant("writer-normalisation-dropped", FLAT, "        if conversion != \"r\":\n            conversion = \"s\"\n\n        flattenedKey", "        flattenedKey",
-           expect_rule="conversion/key-agreement"),
+           expect_rule="roundtrip/concrete-family"),
     Mutant("writer-conversion-functions-swapped", FLAT, "            conversionFunction = repr\n        else:  # Above: if conversion is not \"r\", it's \"s\"\n            conversionFunction = str\n",
-           "            conversionFunction = str\n        else:\n            conversionFunction = repr\n", expect_rule="conversion/function-agreement"),
-    Mutant("key-ignores-conversion", FLAT, "\"{fieldName}!{conversion}:{formatSpec}\".format(", "\"{fieldName}!:{formatSpec}\".format(", expect_rule="key/depends-on-component"),
+           "            conversionFunction = str\n        else:\n            conversionFunction = repr\n", expect_rule="roundtrip/concrete-family"),
+    Mutant("key-ignores-conversion", FLAT, "\"{fieldName}!{conversion}:{formatSpec}\".format(", "\"{fieldName}!:{formatSpec}\".format(", expect_rule="roundtrip/concrete-family"),
     Mutant("convert-before-call", FLAT, "        if callit:\n            fieldValue = fieldValue()\n\n        flattenedValue = conversionFunction(fieldValue)\n",
-           "        flattenedValue = conversionFunction(fieldValue)\n        if callit:\n            fieldValue = fieldValue()\n", expect_rule="writer/call-before-convert"),
-    Mutant("store-raw-value", FLAT, "        fields[flattenedKey] = flattenedValue\n", "        fields[flattenedKey] = fieldValue\n", expect_rule="writer/stores-converted-text"),
+           "        flattenedValue = conversionFunction(fieldValue)\n        if callit:\n            fieldValue = fieldValue()\n", expect_rule="roundtrip/concrete-family"),
+    Mutant("store-raw-value", FLAT, "        fields[flattenedKey] = flattenedValue\n", "        fields[flattenedKey] = fieldValue\n", expect_rule="roundtrip/concrete-family"),
     Mutant("strip-parens-before-key", FLAT, "        flattenedKey = keyFlattener.flatKey(fieldName, formatSpec, conversion)\n        structuredKey = keyFlattener.flatKey(fieldName, formatSpec, \"\")\n\n        if flattenedKey in fields:\n            # We've already seen and handled this key\n            continue\n\n        if fieldName.endswith(\"()\"):\n            fieldName = fieldName[:-2]\n            callit = True\n        else:\n            callit = False\n",
            "        if fieldName.endswith(\"()\"):\n            fieldName = fieldName[:-2]\n            callit = True\n        else:\n            callit = False\n        flattenedKey = keyFlattener.flatKey(fieldName, formatSpec, conversion)\n        structuredKey = keyFlattener.flatKey(fieldName, formatSpec, \"\")\n\n        if flattenedKey in fields:\n            continue\n",
-           expect_rule="key/uses-unstripped-field-name"),
+           expect_rule="roundtrip/concrete-family"),
     Mutant("memo-keyed-by-stripped-field-name", FLAT, _M_OLD, _memo("fieldName"), more=[_M_DECL], expect_rule="roundtrip/concrete-family"),
     Mutant("dumps-rejects-nan-and-inf", JSON, "dumps(event, default=default, skipkeys=True)", "dumps(event, default=default, skipkeys=True, allow_nan=False)",
            expect_rule="json/serialisation-total"),
@@ -695,18 +410,13 @@ MUTANTS = [
            expect_rule="roundtrip/concrete-family"),
     Mutant("keycall-calls-before-lookup-strip", FMT, "    realKey = key[:-2] if callit else key\n", "    realKey = key[:-1] if callit else key\n", expect_rule="roundtrip/concrete-family"),
     Mutant("json-without-flatten", JSON, "    flattenEvent(event)\n    return dumps(", "    return dumps(", expect_rule="json/flatten-before-dumps"),
-    Mutant("reader-joins-with-space", FLAT, "    return \"\".join(s)", "    return \" \".join(s)", expect_rule="reader/joins-with-empty-separator"),
+    Mutant("reader-joins-with-space", FLAT, "    return \"\".join(s)", "    return \" \".join(s)", expect_rule="roundtrip/concrete-family"),
     Mutant("reader-field-before-literal", FLAT, "        s.append(literalText)\n\n        if fieldName is not None:\n            key = keyFlattener.flatKey(fieldName, formatSpec, conversion or \"s\")\n            s.append(str(fieldValues[key]))\n",
            "        if fieldName is not None:\n            key = keyFlattener.flatKey(fieldName, formatSpec, conversion or \"s\")\n            s.append(str(fieldValues[key]))\n        s.append(literalText)\n",
-           expect_rule="reader/emits-literal-then-field"),
+           expect_rule="roundtrip/concrete-family"),
     Mutant("reader-swaps-spec-and-conversion", FLAT, "    for literalText, fieldName, formatSpec, conversion in aFormatter.parse(\n        event[\"log_format\"]\n    ):\n        s.append",
-           "    for literalText, fieldName, conversion, formatSpec in aFormatter.parse(\n        event[\"log_format\"]\n    ):\n        s.append", expect_rule="key/tuple-layout"),
-    Mutant("reader-flattener-per-field", FLAT, "    keyFlattener = KeyFlattener()\n    s = []\n", "    s = []\n",
-           more=[(FLAT, "        if fieldName is not None:\n            key = keyFlattener", "        if fieldName is not None:\n            keyFlattener = KeyFlattener()\n            key = keyFlattener")],
-           expect_rule="key/fresh-flattener"),
-    Mutant("dispatch-dropped", FMT, "        if \"log_flattened\" in event:\n            return flatFormat(event)\n\n", "", expect_rule="dispatch/flattened-uses-flatFormat"),
-    Mutant("seen-check-before-key", FLAT, "        if fieldName is None:\n            continue\n\n        if conversion != \"r\":",
-           "        if fieldName is None or fieldName in event.get(\"log_flattened\", ()):\n            continue\n\n        if conversion != \"r\":", expect_rule="key/one-call-per-field"),
+           "    for literalText, fieldName, conversion, formatSpec in aFormatter.parse(\n        event[\"log_format\"]\n    ):\n        s.append", expect_rule="roundtrip/concrete-family"),
+    Mutant("dispatch-dropped", FMT, "        if \"log_flattened\" in event:\n            return flatFormat(event)\n\n", "", expect_rule="roundtrip/concrete-family"),
 ]
 SILENT = [
     Silent("writer-branch-inverted", FLAT, "        if conversion == \"r\":\n            conversionFunction = repr\n        else:  # Above: if conversion is not \"r\", it's \"s\"\n            conversionFunction = str\n",
@@ -720,5 +430,13 @@ SILENT = [
     Silent("indexed-element-rewrapped-inline", FMT, "        value = self._wrapped[name]  # type:ignore[index]\n        return PotentialCallWrapper(value)\n",
            "        return PotentialCallWrapper(self._wrapped[name])\n"),
     Silent("level-predicate-by-membership", JSON, "            and getattr(LogLevel, level.name, None) is level\n", "            and any(level is c for c in LogLevel.iterconstants())\n"),
+    Silent("reader-as-generator", FLAT, "    s = []\n\n    for literalText, fieldName, formatSpec, conversion in aFormatter.parse(\n        event[\"log_format\"]\n    ):\n        s.append(literalText)\n\n        if fieldName is not None:\n            key = keyFlattener.flatKey(fieldName, formatSpec, conversion or \"s\")\n            s.append(str(fieldValues[key]))\n\n    return \"\".join(s)",
+           "    def pieces():\n        for lit, name, spec, conv in aFormatter.parse(event[\"log_format\"]):\n            yield lit\n            if name is None:\n                continue\n            yield str(fieldValues[keyFlattener.flatKey(name, spec, conv if conv else \"s\")])\n\n    return \"\".join(pieces())"),
+    Silent("field-resolution-in-helper", FLAT, _M_OLD + "        flattenedValue = conversionFunction(fieldValue)\n",
+           "        fieldValue, flattenedValue = _lookUp(fieldName, callit, conversion, event)\n",
+           more=[(FLAT, "def flattenEvent(event: LogEvent) -> None:\n", "def _lookUp(name, call, conv, event):\n    found = aFormatter.get_field(name, (), event)[0]\n    if call:\n        found = found()\n    return found, (repr(found) if conv == \"r\" else str(found))\n\n\ndef flattenEvent(event: LogEvent) -> None:\n")]),
+    Silent("fallback-encoder-at-module-level", JSON, "    def default(unencodable: object) -> Union[JSONDict, str]:\n", "    def unusedLocal(unencodable: object) -> Union[JSONDict, str]:\n",
+           more=[(JSON, "    return dumps(event, default=default, skipkeys=True)", "    return dumps(event, default=_fallback, skipkeys=True)"),
+                 (JSON, "def eventAsJSON(event: LogEvent) -> str:\n", "def _fallback(thing):\n    if not isinstance(thing, bytes):\n        return objectSaveHook(thing)\n    return thing.decode(\"charmap\")\n\n\ndef eventAsJSON(event: LogEvent) -> str:\n")]),
     Silent("json-local-for-text", JSON, "    flattenEvent(event)\n    return dumps(event, default=default, skipkeys=True)", "    flattenEvent(event)\n    text = dumps(event, default=default, skipkeys=True)\n    return text"),
 ]
